@@ -603,10 +603,8 @@ def gen_program(rng, live, quick):
                 hardno += 1
                 phases[ph].append(dict(kind='prep', src='file h%d.txt = x' % hardno))
                 phases[ph].append(dict(kind='stop', hard=True, src='file h%d.txt = x' % hardno))
-        elif r < 58:
-            phases[ph].append(g.gen_def())
         else:
-            u = g.gen_use()
+            u = g.gen_def() if r < 58 else g.gen_use()  # (gen_def gives a use when no fresh name is left)
             if u.get('only') and ph not in u['only']:
                 fr = g.gen_frags(n_max=3)
                 u = dict(kind='use', src='file {FILE} = %s' % frags_src(fr), vals=[('str', fr)], file=True)
